@@ -362,12 +362,14 @@ CACHES = {"lru_cache", "cache", "cached_property", "memoize", "memoized"}
 
 
 def _r4(ctx, pkg):
+    from ..ratemodel import surface_helper
+    SURF = surface_helper(pkg)
     n = 0
     for ci in pkg.classes.values():
         if not (ci.file.startswith("naunet/reactions/") or ci.file.startswith("naunet/grains/") or ci.file == "naunet/thermalprocess.py"):
             continue
         for mname, fn in ci.methods.items():
-            if mname == "rateexpr" or mname.startswith("rate_") or mname == "_rate_surface":
+            if mname == "rateexpr" or mname.startswith("rate_") or mname == SURF:
                 n += 1
                 decs = [ast.unparse(d) for d in fn.decorator_list]
                 bad = [d for d in decs if any(c in d for c in CACHES)]
